@@ -209,6 +209,14 @@ func runC04(r *Report) {
 		return
 	}
 	defer s3.Close()
+	r.Rule("C04/fresh-element", "every loop that parses the elements of an array parameter parses into storage that is fresh per element (declared in the loop body, or reset): a custom type's Parse method, like json.Unmarshal, need not overwrite every field of its target")
+	for _, pp := range progs {
+		before := len(r.Obls)
+		n := freshElements(r, s3, pp.P, pp.P.Pkg.Types, pp.P.Pkg.TypesInfo, pp.P.Pkg.Syntax, "C04/fresh-element")
+		if len(r.Obls) == before {
+			r.OK("C04/fresh-element", pp.P.Name, "", fmt.Sprintf("%d element loops", n))
+		}
+	}
 	nParsers, nRows := 0, 0
 	for _, pp := range progs {
 		ops := opByKey(pp.O)
